@@ -64,18 +64,20 @@ Inductive case :=
 | CRec (entry : nat) (input : bdsl) (chain : Z) (orc : list oentry)
        (cls : nat) (addr : bdsl) (t : otx) (payload : bdsl).
 
-Definition run_entry (orc : list oentry) (entry : nat) (bs : bytes) (chain : Z) : res recovered :=
+Definition run_entry_H (Hf : bytes -> bytes) (orc : list oentry) (entry : nat) (bs : bytes) (chain : Z)
+  : res recovered :=
   let RD := RecoverDirect_run orc in
   match entry with
-  | 0%nat => RecoverRawTransaction keccak256 RD bs chain
-  | 1%nat => RecoverLegacyRawTransaction keccak256 RD bs chain
-  | 2%nat => RecoverEIP1559Transaction keccak256 RD bs chain
+  | 0%nat => RecoverRawTransaction Hf RD bs chain
+  | 1%nat => RecoverLegacyRawTransaction Hf RD bs chain
+  | 2%nat => RecoverEIP1559Transaction Hf RD bs chain
   | _ => match DecodeEIP1559SignaturePayload bs chain with
          | Ok t => Ok ([], t, [])
          | Err e => Err e
          | Panic => Panic
          end
   end.
+Definition run_entry := run_entry_H keccak256.
 
 Definition optN_eqb (a : option N) (b : option Z) : bool :=
   match a, b with
@@ -119,19 +121,39 @@ Definition orc_confirms (orc : list oentry) (digest : bytes) (r s : N) (addr : b
              match a with Some x => bytes_eqb (bexpand x) addr | None => false end) orc.
 
 (* result codes: 0 agree; 1..9 model <> implementation; >= 10 implementation fails a property oracle *)
+Definition compare_model (m : res recovered) (cls : nat) (addr : bytes) (ot : otx) (pl : bytes) : N :=
+  match m, cls with
+  | Panic, _ => 1%N
+  | Err e, 1%nat => if (e =? EOracleMiss)%nat then 4%N else 0%N
+  | Err e, _ => if (e =? EOracleMiss)%nat then 4%N else 1%N
+  | Ok (a, t, p), 0%nat =>
+      if negb (bytes_eqb a addr) then 2%N
+      else if negb (tx_matches ot t) then 3%N
+      else if negb (bytes_eqb p pl) then 5%N
+      else 0%N
+  | Ok _, _ => 1%N
+  end.
+
 Definition check_case (c : case) : N :=
   match c with
   | CRec entry input chain orc cls addr ot payload =>
     let bs := bexpand input in
+    if (cls =? 2)%nat then 10%N                                         (* implementation panicked *)
+    else if negb (cls =? 0)%nat then compare_model (run_entry orc entry bs chain) cls [] ot []
+    else
+    (* the implementation returned a result: property oracles first, then the model *)
     let typed := match entry with 1%nat => false | 0%nat => is_typed bs | _ => true end in
     let tl := if typed then (if is_typed bs then top_list bs else None) else
               match Decode bs with Ok (Some (Lst l), _) => Some l | _ => None end in
     let chainN := Z.to_N chain in
     let pl := bexpand payload in
+    let a := bexpand addr in
+    (* Keccak of the returned payload, computed once and shared with the model run when the model
+       hashes the same bytes *)
+    let digest := if (entry =? 3)%nat then [] else keccak256 pl in
+    let Hm := fun m => if bytes_eqb m pl then digest else keccak256 m in
     let oracle : N :=
-      if (cls =? 2)%nat then 10%N                                         (* implementation panicked *)
-      else if negb (cls =? 0)%nat then 0%N
-      else match tl with
+      match tl with
       | None => 15%N                                (* accepted something that is not a list at all *)
       | Some l =>
         let f := fields_of ot in
@@ -151,24 +173,12 @@ Definition check_case (c : case) : N :=
             (* the (r,s) of the input verify over keccak256(returned payload) for the returned address *)
             let ri := if typed then 10%nat else 7%nat in
             match elem_int l ri, elem_int l (S ri) with
-            | Some r, Some s =>
-                if orc_confirms orc (keccak256 pl) r s (bexpand addr) then 0%N else 13%N
+            | Some r, Some s => if orc_confirms orc digest r s a then 0%N else 13%N
             | _, _ => 13%N
             end
       end in
     if negb (oracle =? 0)%N then oracle
-    else
-      match run_entry orc entry bs chain, cls with
-      | Panic, _ => 1%N
-      | Err e, 1%nat => if (e =? EOracleMiss)%nat then 4%N else 0%N
-      | Err e, _ => if (e =? EOracleMiss)%nat then 4%N else 1%N
-      | Ok (a, t, p), 0%nat =>
-          if negb (bytes_eqb a (bexpand addr)) then 2%N
-          else if negb (tx_matches ot t) then 3%N
-          else if negb (bytes_eqb p pl) then 5%N
-          else 0%N
-      | Ok _, _ => 1%N
-      end
+    else compare_model (run_entry_H Hm orc entry bs chain) cls a ot pl
   end.
 
 Fixpoint mismatches_go (i : N) (l : list case) : list (N * N) :=
